@@ -57,6 +57,15 @@ def main(tier):
                 o = P.outcome(fn)
                 if o[0] != "ok" or not same(o[1], row[name]):
                     bad("Fraction " + name, row, {"predicted": row[name], "observed": repr(o[1]) if o[0] == "ok" else o[2]})
+            # comparison with the plain number that q is, when q is a short decimal (0.29, -0.25, 3): the six operators follow the exact order
+            if q["d"] in (1, 2, 4, 5, 8, 10, 20, 25, 50, 100):
+                num = q["n"] / q["d"] if q["d"] != 1 else q["n"]
+                c_ = row["cmp"]
+                for name, fn, want_ in (("==", lambda: A == num, c_ == 0), ("!=", lambda: A != num, c_ != 0), ("<", lambda: A < num, c_ < 0), ("<=", lambda: A <= num, c_ <= 0),
+                                        (">", lambda: A > num, c_ > 0), (">=", lambda: A >= num, c_ >= 0), ("== (number on the left)", lambda: num == A, c_ == 0)):
+                    o = P.outcome(fn)
+                    if o[0] != "ok" or bool(o[1]) != want_:
+                        bad("Fraction %s plain number %r" % (name, num), row, {"predicted": want_, "observed": o[1] if o[0] == "ok" else o[2]})
             # plain numbers as the other operand (both sides)
             if q["d"] == 1:
                 k = q["n"]
@@ -177,6 +186,12 @@ def main(tier):
                 if o[0] == "ok":
                     got = float(o[1])
                     ppt = min(2 ** 31 - 1, int(abs(got - ref) / scale * 1e12)) if not (math.isnan(got) or math.isnan(ref)) else 2 ** 31 - 1
+                    cq = P.outcome(lambda: float(FractionScalar.ConvertFractionValue(fv, __import__("barril.units").units.ObtainQuantity(v, cat), u, v)))
+                    cs = P.outcome(lambda: float(FractionScalar.ConvertFractionValue(fv, qt, u, v)))
+                    for how_, c__ in (("a quantity object in the target unit", cq), ("the quantity type", cs)):
+                        events.append({"op": "Route", "call": "%s->%s ConvertFractionValue given %s" % (u, v, how_),
+                                       "ppt": min(2 ** 31 - 1, int(abs(c__[1] - ref) / scale * 1e12)) if c__[0] == "ok" and not math.isnan(c__[1]) else 2 ** 31 - 1,
+                                       "unit_ok": c__[0] == "ok", "category_ok": True, "got": repr(c__[1]), "ref": repr(ref)})
                     cp = fs.CreateCopy(unit=v)
                     events.append({"op": "Route", "call": "%s->%s" % (u, v), "ppt": ppt, "unit_ok": cp.GetUnit() == v and abs(float(cp.GetValue()) - ref) <= 1e-9 * scale,
                                    "category_ok": cp.GetCategory() == cat, "got": repr(got), "ref": repr(ref)})
